@@ -109,7 +109,7 @@ func (p *Proc) exchange(script string, timeout time.Duration) ([]string, error) 
 type SolverStats struct {
 	Queries, CacheHits, Sat, Unsat, Unknown, Errors int64
 	Nanos                                            int64
-	Cvc5Queries                                      int64
+	Cvc5Queries, Cvc5Wins                            int64
 	SlowestMs                                        int64
 }
 
@@ -672,30 +672,24 @@ func (s *Solver) solve(asserts []Term, syms []string) (string, map[string]string
 	}
 	t0 := time.Now()
 	atomic.AddInt64(&gStats.Queries, 1)
-	order := []string{"z3inc", "z3", "cvc5"}
-	fp := usesFP(asserts)
-	first := s.timeout
-	if fp {
-		// FP searches: give z3 a short slice first, then cvc5 (measured 10x faster on fp.mul/div), then z3 in full
-		order = []string{"z3", "cvc5", "z3"}
-		first = 4 * time.Second
-	}
 	res := "unknown"
 	var model map[string]string
-	for i, k := range order {
-		to := s.timeout
-		if i == 0 {
-			to = first
-		}
-		if k == "cvc5" {
-			atomic.AddInt64(&gStats.Cvc5Queries, 1)
-		}
-		res, model = s.runOn(k, asserts, syms, to)
-		if res == "sat" || res == "unsat" {
-			break
-		}
-		if strings.HasPrefix(res, "error") && gCfg.Verbose {
-			fmt.Fprintf(os.Stderr, "solver %s: %s\n", k, res)
+	if usesFP(asserts) {
+		// floating-point queries: z3 and cvc5 race on fresh processes (measured: sat searches
+		// 0.1 s on cvc5 vs 3-7 s on z3, unsat 1.8 s on z3 vs 2.5 s on cvc5); first definite answer wins
+		res, model = s.raceFP(asserts, syms)
+	} else {
+		for _, k := range []string{"z3inc", "z3", "cvc5"} {
+			if k == "cvc5" {
+				atomic.AddInt64(&gStats.Cvc5Queries, 1)
+			}
+			res, model = s.runOn(k, asserts, syms, s.timeout)
+			if res == "sat" || res == "unsat" {
+				break
+			}
+			if strings.HasPrefix(res, "error") && gCfg.Verbose {
+				fmt.Fprintf(os.Stderr, "solver %s: %s\n", k, res)
+			}
 		}
 	}
 	dt := time.Since(t0)
@@ -730,6 +724,49 @@ func (s *Solver) solve(asserts []Term, syms []string) (string, map[string]string
 }
 
 var dumpSeq int64
+
+type raceResult struct {
+	kind  string
+	res   string
+	model map[string]string
+}
+
+func (s *Solver) raceFP(asserts []Term, syms []string) (string, map[string]string) {
+	kinds := []string{"z3", "cvc5"}
+	subs := make([]*Solver, len(kinds))
+	ch := make(chan raceResult, len(kinds))
+	for i, k := range kinds {
+		subs[i] = &Solver{timeout: s.timeout}
+		go func(sub *Solver, k string) {
+			r, m := sub.runOn(k, asserts, syms, s.timeout)
+			ch <- raceResult{k, r, m}
+		}(subs[i], k)
+	}
+	atomic.AddInt64(&gStats.Cvc5Queries, 1)
+	best := raceResult{res: "unknown"}
+	for n := 0; n < len(kinds); n++ {
+		r := <-ch
+		if r.res == "sat" || r.res == "unsat" {
+			best = r
+			break
+		}
+		if strings.HasPrefix(r.res, "error") && gCfg.Verbose {
+			fmt.Fprintf(os.Stderr, "solver %s: %s\n", r.kind, r.res)
+		}
+		if best.res == "unknown" {
+			best = r
+		}
+	}
+	for _, sub := range subs {
+		sub.close() // kills the loser; its goroutine ends with an error that nobody reads
+	}
+	if best.res == "sat" || best.res == "unsat" {
+		if best.kind == "cvc5" {
+			atomic.AddInt64(&gStats.Cvc5Wins, 1)
+		}
+	}
+	return best.res, best.model
+}
 
 // model: full (unsliced) solve returning values for syms.
 func (s *Solver) model(pc []Term, extra Term, syms []string) (string, map[string]string) {
